@@ -40,6 +40,12 @@ Theorem C17_only_jumps_assign_pc_and_only_cancel_sets_abort :
 Proof. exact flow_ok. Qed.
 Print Assumptions C17_only_jumps_assign_pc_and_only_cancel_sets_abort.
 
+(** ... as is where these functions sit in the live instruction tables (every fork, every extra-EIP variant): opJump at 0x56
+    only, opJumpi at 0x57 only, the PUSH functions exactly at 0x60..0x7f — what [is_jump_op] and [push_len] say of a byte *)
+Theorem C17_jump_and_push_entries_where_the_model_says : control_tables_ok = true.
+Proof. exact gen_control_tables. Qed.
+Print Assumptions C17_jump_and_push_entries_where_the_model_says.
+
 (** ... and under exactly these premises — only JUMP/JUMPI move the program counter other than forwards, STOP (also the
     implicit one behind the code) ends the frame, the flag is never cleared — for EVERY instruction semantics, state and
     moment k at which another goroutine's Cancel becomes visible: from that iteration on the frame visits a prefix of the
